@@ -30,6 +30,9 @@ pub fn run(ctx: &Ctx) -> i32 {
     let _ = std::fs::remove_dir_all(&work);
     std::fs::create_dir_all(&work).unwrap();
     let work2 = work.clone();
+    // every case already runs N generator processes (each with a rustfmt child): few shards, and a
+    // generous per-case watchdog (it can only yield "inconclusive") for loaded machines
+    let ctx = &Ctx { shards: ctx.shards.min(4), case_limit_s: ctx.case_limit_s.max(600), ..ctx.clone() };
     let rep = run_sharded(ctx, "c24", n, move |rng, i, rep| {
         let p = &profiles[(i as usize) % profiles.len()];
         let g = if i % 7 == 6 {
